@@ -44,6 +44,14 @@ class Module:
         self.chunks.append(Chunk(text, label or 'spec', 'spec'))
         return self
 
+    # ---- D4: stand-in for an item that only has to exist for rustc (never called from verified code); #[verifier::external]
+    def stub(self, text, note):
+        if '#[verifier::external]' not in text:
+            raise Undecided('stub must be #[verifier::external]')
+        self.chunks.append(Chunk(text, 'stub', 'stub'))
+        self.unit.log.rw('D4', self.qual, note, text.strip()[:120])
+        return self
+
     # ---- verbatim data items (struct / enum / type / const / trait without contracts)
     def item(self, sel, file=None, from_impls=True, extra_attrs='', rewrites=None, assumed_clone=False):
         sf = self.sf(file)
@@ -96,9 +104,9 @@ class Module:
         label = ('%s::%s%s' % (self.qual, prefix, name)) if self.qual else (prefix + name)
         text = weave_fn(sf, it, spec, self.unit.log, label)
         kind = 'fn'
-        if spec is not None and spec.mode == 'assumed':
+        if spec is not None and spec.mode in ('assumed', 'assumed_sig'):
             kind = 'assumed'
-            self.unit.log.escapes.append({'fn': label, 'kind': 'external_body', 'contract': (spec.ensures or '').strip()[:300],
+            self.unit.log.escapes.append({'fn': label, 'kind': 'external_body' + (' (body dropped)' if spec.mode == 'assumed_sig' else ''), 'contract': (spec.ensures or '').strip()[:300],
                                           'note': spec.note or ''})
         elif spec is not None and spec.mode == 'external':
             kind = 'external'
